@@ -215,9 +215,23 @@ def vector_events(rng):
         n = rng.choice(T.admissible_charges(sym, s, lg))
         mk = lambda dens: T.build_tensor(cfg, sym, s, lg, n, random.Random(rng.randrange(1 << 30)), density=dens)
         full = mk(1.0)
-        for variant, f in (('plain', lambda t: t), ('hard-fused', lambda t: t.fuse_legs(axes=((0, 1), 2), mode='hard')), ('lazy', lambda t: t.transpose((2, 0, 1)))):
-            m = yastn.split_data_and_meta(f(full + mk(1.0)).to_dict(level=0))[1]
-            x, y = f(mk(0.5)), f(mk(0.6))
+        for variant, f in (('plain', lambda t: t), ('hard-fused', lambda t: t.fuse_legs(axes=((0, 1), 2), mode='hard')), ('lazy', lambda t: t.transpose((2, 0, 1))),
+                           ('lazy-vs-plain-meta', None)):
+            if f is None:
+                # meta taken from a plain matrix with two identical legs; the serialised tensors carry a pending transposition with the SAME storage layout
+                lq = {'U1': [((-1,), 2), ((0,), 1), ((1,), 2)], 'Z2': [((0,), 2), ((1,), 1)], 'Z2xU1': [((0, -1), 1), ((0, 1), 1), ((1, 0), 2)], 'dense': [((), 3)]}[sym]
+                n0 = tuple(0 for _ in T.SYMS[sym])
+                mkm = lambda dens: T.build_tensor(cfg, sym, [1, 1], [lq, lq], n0, random.Random(rng.randrange(1 << 30)), density=dens)
+                fullm = mkm(1.0)
+                m = yastn.split_data_and_meta((fullm + mkm(1.0)).to_dict(level=0))[1]
+                f = lambda t: t.transpose((1, 0))          # same legs, same stored structure, only the pending permutation differs from meta
+                x, y = f(mkm(1.0)), f(mkm(1.0))
+                full = fullm
+                if x.struct != fullm.struct or x.get_legs() != fullm.get_legs():
+                    continue
+            else:
+                m = yastn.split_data_and_meta(f(full + mk(1.0)).to_dict(level=0))[1]
+                x, y = f(mk(0.5)), f(mk(0.6))
             c = rng.choice((2, -3))
             V = lambda t: [int(round(float(v))) for v in yastn.split_data_and_meta(t.to_dict(level=0, meta=m), squeeze=True)[0]]
             try:
@@ -267,7 +281,7 @@ def main(tier, seed, replay=None):
         else:
             objs = [(v, sym, True, o) for k, v, sym, o in pv]
         for variant, sym, ferm, o in objs:
-            if rng.random() > frac:
+            if kind == 'Tensor' and rng.random() > frac:
                 continue
             if lazy0:
                 if kind != 'Tensor' or o.ndim < 2:
